@@ -14,14 +14,14 @@ def run(rep, tier):
                     cls._execute_json, cls._execute_multipart)
     parts = xh.write_module("hC11_parts", H.parts_source())
     targets = [f"{parts}.check_{name}" for name, *_ in H.CLIENTS] + [f"{parts}.check_kwargs_{name}" for name, *_ in H.CLIENTS]
-    extra = [f"{MOD}.check_empty_variables", f"{MOD}.check_interleaving", f"{MOD}.twin_shared_upload_reached"]
+    extra = [f"{MOD}.check_empty_variables", f"{MOD}.check_interleaving", f"{MOD}.check_call_history", f"{MOD}.twin_shared_upload_reached"]
     t = 600 if tier == "quick" else 3000
     res = xh.run_targets(targets + extra, timeout=t)
     xh.fold(rep, parts, [r for r in res if r.target.startswith(parts)])
     xh.fold(rep, MOD, [r for r in res if r.target.startswith(MOD)])
     rep.coverage.update({
         "evaluations": len(res), "distinct_nontrivial": len(res) - 1, "exhaustive": all(r.status in ("confirmed", "counterexample") for r in res),
-        "rule": "one CrossHair condition per base client flavour (4 clients + 2 with tracer stub); symbolic: kind of variable a (8 leaf kinds incl. two Uploads, enum, models with alias/unset/nested Upload; list/dict of <=2 leaves), second variable (6 shapes incl. shared Upload, UNSET), kwargs (4 shapes); plus interleaving schedules (4) of two concurrent async calls",
+        "rule": "one CrossHair condition per base client flavour (4 clients + 2 with tracer stub); symbolic: kind of variable a (8 leaf kinds incl. two Uploads, enum, models with alias/unset/nested Upload; list/dict of <=2 leaves), second variable (6 shapes incl. shared Upload, UNSET), kwargs (4 shapes); plus interleaving schedules (4) of two concurrent async calls and two-call histories (kwargs of the first call x kwargs of the second x same/other instance x upload first) whose second request must be history-free",
         "bounds": {"tree_depth": 2, "container_size": "<= 2", "uploads": "2 distinct objects, shared references"},
         "results": [{"target": r.target.rsplit('.', 1)[-1], "status": r.status, "wall_s": round(r.wall, 1)} for r in res],
     })
